@@ -217,6 +217,36 @@ class Oracle:
                 out.append({"input": {"command": q2.render(), "config": self.cfg_text, "cwd": str(self.cwd)}, "observed": {"verdict": v2[0], "original": self.text(p), "original_verdict": want}, "required": "order and repetition of parts change nothing", "oracle": "perm-dup"})
 
 
+COMPOSE = [
+    "A; B", "A && B", "A || B", "A | B", "A & B", "A\nB", "A; B; C", "A && B || C", "A | B | C", "A; B &", "( A )", "( A; B )", "{ A; }", "{ A; B; }", "! A", "time A", "time A | B", "! A | B",
+    "if A; then B; fi", "if A; then B; else C; fi", "if A; then B; elif C; then D; fi", "if A; then B; elif C; then D; else E; fi", "if A; B; then C; fi",
+    "while A; do B; done", "until A; do B; done", "while A; B; do C; done", "for i in 1 2; do A; done", "for i in 1; do A; B; done", "for ((i=0;i<1;i++)); do A; done",
+    "case x in x) A ;; esac", "case x in a) A ;; b) B ;; *) C ;; esac", "case x in a) A ;& b) B ;;& c) C ;; esac", "f() { A; }", "f() { A; B; }", "function g { A; }; B", "f() ( A )",
+    "echo $(A)", "echo $(A) $(B)", "echo $(A; B)", "echo `A`", "cat <(A)", "cat <(A) <(B)", "echo \"$(A)\"", "echo $(echo $(A))", "echo $(A | B)",
+    "( A ) && { B; } || ! C", "if ( A ); then { B; }; fi", "while ! A; do ( B ); done", "{ A; } | ( B )", "A | ( B; C )", "( ( A ) )", "{ { A; }; }", "time ( A )", "! { A; }",
+    "coproc A", "coproc { A; }", "A > /dev/null", "{ A; } > /dev/null", "( A ) 2> /dev/null", "if A; then B; fi > /dev/null", "while A; do B; done < /dev/null",
+    "ok1 $(A) > /tmp/ok", "ok1 $(A) > /tmp/q", "ok1 $(A) > /tmp/no", "ok1 > /tmp/ok $(A)", "ok1 $(A) $(B) > /tmp/q 2> /tmp/ok", "X=$(A) ok1", "X=$(A) Y=$(B) ok1 > /tmp/q", "X=$(A)", "ok1 <(A) > /tmp/no",
+]
+PART_CMDS = {"allow": "ok1 a", "ask": "askme x", "deny": "denied y"}
+TARGET_VERDICT = {"/tmp/ok": "allow", "/tmp/q": "ask", "/tmp/no": "deny", "/dev/null": "allow"}
+
+
+def compose_matrix():
+    """every composition operator of the statement x every assignment of allow/ask/deny commands to its parts: the verdict
+    must be the most restrictive part (deterministic, exercised on every run)"""
+    import itertools
+    import re as _re
+
+    for tmpl in COMPOSE:
+        letters = sorted(set(_re.findall(r"\b[A-E]\b", tmpl)))
+        for combo in itertools.product(("allow", "ask", "deny"), repeat=len(letters)):
+            text = tmpl
+            for L, v in zip(letters, combo):
+                text = _re.sub(r"\b%s\b" % L, PART_CMDS[v], text)
+            want = max(list(combo) + [TARGET_VERDICT[t] for t in TARGET_VERDICT if (" > " + t) in text or (" 2> " + t) in text], key=lambda a: RANK[a])
+            yield text, want
+
+
 def search(ctx):
     o = Oracle()
     r = rng("c03-search")
@@ -228,6 +258,15 @@ def search(ctx):
     stats = collections.Counter()
     vios: list = []
     samples = []
+    for text, want in compose_matrix():
+        act, reason = o.verdict(text)
+        stats["matrix_cases"] += 1
+        if reason.startswith("parse error"):
+            stats["matrix_parse_errors"] += 1
+            continue
+        if act != want and stats["matrix_violations"] < 5:
+            stats["matrix_violations"] += 1
+            vios.append({"input": {"command": text, "config": o.cfg_text, "cwd": str(o.cwd)}, "observed": {"verdict": act, "reason": reason}, "required": f"verdict == most restrictive of the parts == {want}", "oracle": "max-of-parts(composition matrix)", "node_kind": "matrix"})
     for i in range(n):
         p, t = g.program()
         self_out: list = []
